@@ -81,6 +81,7 @@ def build():
     for R in (3, 4):
         add('ctr_dec2_wait', 'counter_basic.c', ['dec_twice', 'waiter', 'setup', 'final_check'], R, CV_UNITS, ninit=1, nfinal=1, pools=dict(CTR), excl=NOTE_FN + CVW_FN, timeout=3000)
         add('ctr_dec2_timed', 'counter_basic.c', ['dec_twice', 'waiter_timed', 'setup', 'final_check'], R, CV_UNITS, ninit=1, nfinal=1, pools=dict(CTR), excl=NOTE_FN + CVW_FN, timeout=3000)
+        add('ctr_passive_timed_dec', 'counter_basic.c', ['waiter_timed1', 'dec_once', 'setup_passive', 'final_passive'], R, CV_UNITS, ninit=1, nfinal=1, pools=dict(CTR), excl=NOTE_FN + CVW_FN, timeout=3000)
         add('ctr_dec_dec_wait', 'counter_basic.c', ['dec', 'dec', 'waiter', 'setup', 'final_check'], R, CV_UNITS, ninit=1, nfinal=1, pools=dict(CTR), excl=NOTE_FN + CVW_FN, timeout=6000)
         add('ctr_dec_dec_timed', 'counter_basic.c', ['dec', 'dec', 'waiter_timed', 'setup', 'final_check'], R, CV_UNITS, ninit=1, nfinal=1, pools=dict(CTR), excl=NOTE_FN + CVW_FN, timeout=6000)
         add('ctr_dec_dec_reader', 'counter_basic.c', ['dec', 'dec', 'reader', 'setup', 'final_check'], R, CV_UNITS, ninit=1, nfinal=1, pools=dict(CTR), excl=NOTE_FN + CVW_FN, timeout=6000)
@@ -146,6 +147,7 @@ def build():
         hb('w_try', ['t_writer', 't_trywriter', 'final_x'], R, MU_UNITS, nfinal=1, timeout=3000)
         hb('w2_w', ['t_writer2', 't_writer', 'final_x'], R, MU_UNITS, nfinal=1, timeout=3000)
         hb('w_w_w', ['t_writer', 't_writer', 't_writer', 'final_x'], R, MU_UNITS, nfinal=1, timeout=9000)
+        hb('passive_w_w', ['t_writer', 't_writer', 'setup_passive_writer', 'final_x'], R, MU_UNITS, ninit=1, nfinal=1, timeout=6000)
         hb('cv', ['t_cv_waiter', 't_cv_signaller', 'final_x'], R, CV_UNITS, nfinal=1, excl=ONLY_MU, timeout=6000)
         hb('mw', ['t_mw_waiter', 't_mw_setter', 'final_x'], R, CV_UNITS, nfinal=1, excl=ONLY_MU, timeout=6000)
         hb('once', ['t_once', 't_once', 'final_x'], R, ONCE_UNITS, nfinal=1, excl=ONLY_MU, extra={'max_cells': 400}, timeout=6000)
